@@ -121,6 +121,15 @@ impl<S> MemCase<S> {
     }
 }
 
+#[cfg(epserde_verif)]
+impl<S> MemCase<S> {
+    /// Verification hook (only with `--cfg epserde_verif`): the bytes of the
+    /// backing region owned by this [`MemCase`], if any.
+    pub fn verif_backend_bytes(&self) -> Option<&[u8]> {
+        self.1.as_ref()
+    }
+}
+
 unsafe impl<S: Send> Send for MemCase<S> {}
 unsafe impl<S: Sync> Sync for MemCase<S> {}
 
